@@ -260,6 +260,17 @@ def check_encoder(facts, rep, crate):
         return n.kind == "call" and n[6] == "with_capacity" or n.kind == "call" and n[6] == "new" and "Vec" in n[1]
     paths, tr = emit_paths(facts, b, vec_pred)
     where = "%s (%s)" % (loc_str(b.loc), b.path)
+    # a vectored payload is written front to back: the loop over its slices uses a forward slice / vec iterator
+    its = [(bi, t) for bi, t in b.calls() if callee(t) and callee(t)["name"] == "next" and "Iterator" in callee(t).get("trait", callee(t)["path"])]
+    for bi, t in its:
+        pth = callee(t)["path"]
+        fwd = pth.startswith("<core::slice::Iter<") or pth.startswith("<alloc::vec::IntoIter<") or pth.startswith("<core::slice::iter::Iter<")
+        if fwd and not any(k in pth for k in ("Rev<", "Skip<", "StepBy<", "Take<", "Filter<")):
+            rep.ok("C09.R3", "vectored-forward-order", "%s (%s)" % (loc_str(t["loc"]), b.path), "slices appended in order (%s)" % pth.split(" as ")[0][1:40])
+        else:
+            rep.bad("C09.R3", "vectored-forward-order", "%s (%s)" % (loc_str(t["loc"]), b.path),
+                    "the slices of a vectored Push are not appended by a plain forward iteration (%s): the bytes of one write reach the peer "
+                    "reordered / incomplete" % pth[:80])
     by_var = {}
     for p in paths:
         var = None
